@@ -328,7 +328,7 @@ def run(ctx):
         tt = strip(tt)
         if isinstance(tt, tuple) and tt[0] == 'agg' and 'Ok' in tt[1]:
             gs = [(strip(g), opw.truth(k)) for g, k, sw in ax.guard_terms(d[1])]
-            one = [v for g, v in gs if isinstance(g, tuple) and g[0] == 'bin' and g[1] == 'Eq' and util.const_val(g[3]) == 1 and 'len' in show(g[2], maxdepth=3)]
+            one = [True for g, v in gs if util.equals_guard(g, v) is not None and util.const_val(util.equals_guard(g, v)[1]) == 1 and 'len' in show(util.equals_guard(g, v)[0], maxdepth=3)]
             v = util.const_val(tt[2])
             if v is None and one and one[0] is True:
                 rets['single'] = 'index0' if mir.contains(tt[2], lambda x: x[0] == 'call' and cname(x[1]) == 'Index::index' and util.const_val(x[3]) == 0) else '?'
